@@ -613,6 +613,33 @@ func (m *ledgerMon) check(h uint32, b *BlockSpec, prevDump, dump []string, prevW
 			m.violate("rates:peg-price:"+eraOf(a, h), fmt.Sprintf("PEG recorded at %v, the pricing phase of the height prescribes %v", got, exp), h)
 		}
 	}
+	// ... and in the floating phase before 2.0 it is the winning OPR's own PEG quote (independent
+	// grading run); every other asset's recorded rate is the winner's quote in every pre-2.0 phase
+	if rr := L.Rates[int64(h)]; len(rr) > 0 && h < a.V20 {
+		if wa := ExpectedWinnerAssets(a, b, prevWinners); wa != nil {
+			for name, v := range wa {
+				if name == "PNT" {
+					name = "PEG"
+				}
+				tick := name
+				if name != "PEG" {
+					tick = "p" + name
+				}
+				got, has := rr[tick]
+				if !has {
+					continue
+				}
+				if tick == "PEG" && h < a.PegFloat {
+					continue // phase-priced: checked above
+				}
+				m.rep.Count("rates:winner-quote-checked")
+				if got != v {
+					m.violate("rates:winner-quote:"+eraOf(a, h), fmt.Sprintf("%s recorded at %d, the winning OPR quotes %d", tick, got, v), h)
+					break
+				}
+			}
+		}
+	}
 	// C16: "the unconverted part of the input is refunded in the source asset": for every genuine
 	// PEG request executed in a bank-era block, the refund recorded with it (and, by the history
 	// replay above, credited) is floor((floor(in*src/peg) - paid) * peg / src) at the block's rates
